@@ -276,6 +276,44 @@ def ptlc_tweaks(ctx, case):
     ctx.evaluations += max(n - 1, 0)
 
 
+def threshold_case(ctx, case):
+    """the verifier's own slack threshold (run_script additional_flags) governs the refund path of every lock kind"""
+    kind, thr = case
+    seed = ctx.seed
+    sk, pk = keys(seed)
+    sf = fields(seed)
+    tw = tweak(seed)
+    pre = preimages(seed)
+    timeout = 100
+    lock = build_lock(kind, pk, pre['right'], timeout, tw=tw)
+    deadline = T0 + timeout
+    n = 0
+    for path, signer, choice in (('refund', 'refund', 'wrong'), ('claim', 'receiver', 'right')):
+        wk = matching_witness(kind, path)
+        w = build_witness(wk, sk, signer, pre[choice], sf, tw=tw)
+        for dt in (-1, 0, 1):
+            t = deadline + dt
+            for d in (-1, 0, 1, 50):
+                now = t - (max(thr, 0) + d)
+                env.Clock.now = now
+                n += 1
+                slack_ok = thr <= 0 or (t - now < thr)
+                want = True if path == 'claim' else (t >= deadline and slack_ok)
+                try:
+                    _, stack, _ = F.run_script(w + lock, {**sf, 'timestamp': t}, additional_flags={'ts_threshold': thr})
+                    got = stack.list() == [b'\xff']
+                except BaseException:
+                    got = False
+                ctx.ran()
+                ctx.trans(2)
+                ctx.state(('thr', kind, thr, path, dt, d))
+                ctx.outcome('thr:%s' % got)
+                if got is not want:
+                    ctx.violation({'lock': kind, 'block': 'custom slack threshold', 'path': path, 'kind': 'accepts' if got else 'rejects'},
+                                  f'{kind} {path} ts_threshold={thr} t=deadline{dt:+d} t-now={t - now}: {got}, model {want}')
+    ctx.evaluations += max(n - 1, 0)
+
+
 def flags_case(ctx, case):
     kind, fl, allowed = case
     seed = ctx.seed
@@ -342,6 +380,8 @@ def blocks(tier, seed):
     return [
         Block('deadline_widths', dw, deadline_widths, 'lock kind x deadline at 2^b-1, 2^b, 2^b+1 for b in 7..64 step byte/sign boundaries x '
               '(creation time, timeout) decompositions x path x t=deadline-1..+1', nshards=min(len(dw), 64)),
+        Block('custom_slack_threshold', [(k, thr) for k in KINDS for thr in (10, 61, 600, 0, -1)], threshold_case,
+              'lock kind x verifier ts_threshold {10, 61, 600, 0, -1} x path x t=deadline-1..+1 x t-now around the threshold', nshards=30),
         Block('time_grid', tg, time_grid, 'lock kind x signer x preimage choice x timeout {0,1,86400} x t=deadline-1..+1 x t-now=59..61', nshards=len(tg)),
         Block('preimage_lengths', pl, preimage_lengths, 'preimage lengths %s x right/wrong x signer; SHAKE digest sizes 1,16,20,32,64' %
               ('1..64'), nshards=min(len(pl), 128)),
